@@ -298,6 +298,55 @@ def rule_lock(ctx):
     ctx.note(f"C17.LOCK: {n} lock-holding with-statements in coroutines")
 
 
+# classes whose instances belong to one session: a task kept on one of them is that session's own
+PER_SESSION_CLASSES = {"Connection": "the session object", "StreamIO": "one wrapper per socket", "ThrottleStreamIO": "one wrapper per socket",
+                       "AsyncPathIOContext": "one per opened file"}
+
+
+def rule_task(ctx):
+    p = ctx.p
+    ctx.rule("C17.TASK", "a task belongs to the session that created it: the result of create_task / ensure_future is kept in locals, in the session object or in a per-socket "
+                         "wrapper - never on an object several sessions share (a throttle, a user, the server): a session that is cancelled cancels what it awaits, and with "
+                         "a shared task that is the other session's wait as well")
+    n = 0
+    for mod in ("server.py", "common.py", "pathio.py"):
+        for fn in [f_ for f_ in ast.walk(p.trees[mod]) if isinstance(f_, FuncT)]:
+            def is_task(e, fn=fn, seen=()):
+                if id(e) in seen or len(seen) > 12:
+                    return False
+                seen = seen + (id(e),)
+                if isinstance(e, ast.Call) and (dotted(e.func) or "").split(".")[-1] in ("create_task", "ensure_future"):
+                    return True
+                if isinstance(e, ast.Name):
+                    return any(k == "assign" and v is not e and not isinstance(v, ast.Name) and is_task(v, fn, seen) for k, v, _x in local_defs(fn, e.id))
+                if isinstance(e, (ast.List, ast.Set, ast.Tuple)):
+                    return any(is_task(x, fn, seen) for x in e.elts)
+                return False
+            stores = []
+            for x in walk_no_nested(fn):
+                if isinstance(x, ast.Assign) and is_task(x.value):
+                    stores += [(t, x) for t in x.targets if isinstance(t, (ast.Attribute, ast.Subscript))]
+                elif isinstance(x, ast.Call) and isinstance(x.func, ast.Attribute) and x.func.attr in MUTATORS and any(is_task(a) for a in x.args):
+                    if isinstance(x.func.value, (ast.Attribute, ast.Subscript)):
+                        stores.append((x.func.value, x))
+            for tgt, x in stores:
+                root = tgt
+                while isinstance(root, (ast.Attribute, ast.Subscript)):
+                    root = root.value
+                rn = root.id if isinstance(root, ast.Name) else src(root)
+                q = p.parent.get(fn)
+                while q is not None and not isinstance(q, ast.ClassDef):
+                    q = p.parent.get(q)
+                cname = q.name if q is not None else None
+                session_names = {"connection"}
+                ok = rn in session_names or (rn == "self" and cname in PER_SESSION_CLASSES)
+                n += 1
+                ctx.ob("C17.TASK", x, f"{p.qualname(fn)}: task kept in `{src(tgt)[:40]}` (per session)", ok,
+                       f"{p.qualname(fn)} keeps a task in `{src(tgt)[:40]}`, an object that is not one session's own: sessions sharing it await (and, when cancelled, cancel) "
+                       "the same task - one session's ABOR or crash aborts the other's transfer", construct=f"task:{p.qualname(fn)}:{src(tgt)[:30]}")
+    ctx.floor("C17.TASK", 4, "task stores")
+
+
 def rule_borrowed(ctx):
     from .c10 import rule_pair
     from .c11 import rule_token
@@ -307,4 +356,4 @@ def rule_borrowed(ctx):
     ctx.borrow(rule_token, {"C11.TOKEN": "C17.PORTS"})
 
 
-RULES = [rule_write, rule_fresh, rule_closure, rule_state, rule_lock, rule_borrowed]
+RULES = [rule_write, rule_fresh, rule_closure, rule_state, rule_lock, rule_task, rule_borrowed]
